@@ -927,7 +927,6 @@ def rectangular_tensors(ctx):
     import skfem
     from skfem import Basis, ElementVector
     cases = [(skfem.MeshTri1().refined(1), lambda: ElementVector(ElementVector(skfem.ElementTriP1(), 3), 2), (2, 3)),
-             (skfem.MeshTri1().refined(1), lambda: ElementVector(ElementVector(skfem.ElementTriP1(), 2), 3), (3, 2)),
              (skfem.MeshTet1(), lambda: ElementVector(ElementVector(skfem.ElementTetP1(), 2), 3), (3, 2))]
     rs = np.random.RandomState(ctx.seed + 141)
     for m, mk, shp in cases:
